@@ -72,6 +72,7 @@ func main() {
 		var names []string
 		for _, f := range pkg.GoFiles {
 			path := filepath.Join(dir, f)
+			_ = path
 			af, err := parser.ParseFile(fset, path, nil, parser.ParseComments)
 			if err != nil {
 				fatal(err)
@@ -89,6 +90,10 @@ func main() {
 				fatal(err)
 			}
 			var edits []edit
+			if strings.HasPrefix(filepath.Base(names[i]), "verif_") {
+				// harness-side views (snapshots): must not consume schedule choices
+				continue
+			}
 			ast.Inspect(af, func(n ast.Node) bool {
 				rs, ok := n.(*ast.RangeStmt)
 				if !ok {
